@@ -77,7 +77,9 @@ def pool_run(ids, nj, ll, good, opts):
                     except Exception as e: done[futs[f]] = {'id': futs[f], 'status': 'error', 'error': repr(e)[:300]}
         except BrokenProcessPool:
             pass
-    run(ids, nj)
+    byid = {c.id: c for c in good}
+    order = sorted(ids, key=lambda i: -getattr(byid[i], 'weight', 1))     # expected-heavy cases first (better tail packing)
+    run(order, nj)
     left = [i for i in ids if i not in done]
     if left and len(left) > 4: run(left, max(2, nj // 2)); left = [i for i in ids if i not in done]
     for i in left:
